@@ -1098,6 +1098,18 @@ def case_similarity(rng, ctx):
     w = World(ctx, rng, max_size=700 if ctx.tier == "quick" else 1300, wide_ok=False)
     kind, nb = pick_kind(rng, w)
     rule, sm = gen_rule(ctx, rng, w)
+    if rng.random() < 0.5:
+        # the rule object has been used before, with a k-mer alphabet of another k over the same base alphabet
+        # (one rule, several indices): what it returns for this alphabet must not depend on that
+        k2 = w.k + 1 if (w.n ** (w.k + 1) <= 5000 or w.k == 1) else w.k - 1
+        if k2 >= 1 and k2 != w.k:
+            other = align.KmerAlphabet(w.kalph.base_alphabet, k2)
+            for code in sorted({0, len(other) - 1} | {int(c) for c in rng.integers(0, min(len(other), w.ka.size), size=6)}):
+                try:
+                    rule.similar_kmers(other, code)
+                except Exception:
+                    pass
+            ctx.op("similarity_rule_used_before_with_other_k")
     b = build_any(ctx, rng, w, kind, nb, None, prefer="sequences" if rng.random() < 0.7 else None)
     t, model, pool = b.table, b.model, b.pool
     keys = sorted(km for km, v in model.items() if v)
